@@ -44,19 +44,19 @@ def _(c):
 @fuc('random', 'binom_rnd_f', props=['C20', 'C19'])
 def _(c):
     c.requires('N >= 0')
-    c.loop(0).invariant('answer == bcount(kappa0(), i, p)').invariant('kappa() == kappa0() + i', label='stream') \
+    c.loop(0).invariant('answer == bcount(old(kappa()), i, p)').invariant('kappa() == old(kappa()) + i', label='stream') \
              .also_modifies('kappa')
-    c.ensures('result == bcount(kappa0(), trunc(N + 0.5), p)', label='count')
+    c.ensures('result == bcount(old(kappa()), trunc(N + 0.5), p)', label='count')
     c.ensures('0 <= result and result <= trunc(N + 0.5)', label='range')
-    c.ensures('kappa() == kappa0() + trunc(N + 0.5)', label='stream')
+    c.ensures('kappa() == old(kappa()) + trunc(N + 0.5)', label='stream')
     c.modifies('kappa')
 
 
 @fuc('random', 'binom_rnd', props=['C19'])
 def _(c):
-    c.loop(0).invariant('answer == bcount(kappa0(), i, p)').invariant('kappa() == kappa0() + i', label='stream') \
+    c.loop(0).invariant('answer == bcount(old(kappa()), i, p)').invariant('kappa() == old(kappa()) + i', label='stream') \
              .also_modifies('kappa')
-    c.ensures('result == bcount(kappa0(), n, p)', label='count')
+    c.ensures('result == bcount(old(kappa()), n, p)', label='count')
     c.ensures('0 <= result and result <= n', label='range')
     c.modifies('kappa')
 
@@ -64,8 +64,10 @@ def _(c):
 @fuc('random', 'array_sum', props=['C05', 'C06', 'C10', 'C11', 'C19'])
 def _(c):
     c.requires('length >= 0 and len(data) >= length')
-    c.loop(0).invariant('answer == sum_(data, i)')
+    c.loop(0).invariant('answer == sum_(data, i)') \
+             .invariant('implies(forall(lambda j: implies(0 <= j and j < length, data[j] >= 0)), answer >= 0)', label='nonneg')
     c.ensures('result == sum_(data, length)')
+    c.ensures('implies(forall(lambda j: implies(0 <= j and j < length, data[j] >= 0)), result >= 0)', label='nonneg')
     c.modifies()
 
 
@@ -73,9 +75,9 @@ def _(c):
 def _(c):
     c.requires('Lambda > 0')
     c.requires('U(kappa()) > 0')
-    c.ensures('result == -ln(U(kappa0())) / Lambda', label='inverse-cdf')
+    c.ensures('result == -ln(U(old(kappa()))) / Lambda', label='inverse-cdf')
     c.ensures('result >= 0', label='nonneg')
-    c.ensures('kappa() == kappa0() + 1', label='stream')
+    c.ensures('kappa() == old(kappa()) + 1', label='stream')
     c.modifies('kappa')
 
 
@@ -88,7 +90,7 @@ def _(c):
     c.loop(0).invariant('0 <= i and i <= choices and p_sum == sum_(data, i)') \
              .invariant('i >= 1 and i <= choices and sum_(data, i - 1) < q or i == 0 and p_sum == 0', label='below')
     c.ensures('0 <= result and result < choices', label='range')
-    c.ensures('sum_(data, result) < U(kappa0()) * Lambda and U(kappa0()) * Lambda <= sum_(data, result + 1)', label='interval')
+    c.ensures('sum_(data, result) < U(old(kappa())) * Lambda and U(old(kappa())) * Lambda <= sum_(data, result + 1)', label='interval')
     c.ensures('data[result] > 0', label='positive-weight')
-    c.ensures('kappa() == kappa0() + 1', label='stream')
+    c.ensures('kappa() == old(kappa()) + 1', label='stream')
     c.modifies('kappa')
